@@ -42,6 +42,11 @@ MUTS = [
     ('M28 complex content extension: base attributes dropped when own exist', T, "                xsd_attributes.extend(extension_base.get_xsd_attributes())\n", "                if not complex_content_extension.get_children():\n                    xsd_attributes.extend(extension_base.get_xsd_attributes())\n", 'C03,C04'),
     ('M29 exponent rendering: only negative exponents', X, "    if isinstance(value, float) and 'e' in text:", "    if isinstance(value, float) and 'e-' in text:", 'C05'),
     ('M30 write: declaration after validation but file opened first', X, "        xml_string = self.to_string(intelligent_choice=intelligent_choice)\n        with open(path, 'w', encoding='utf-8') as file:\n            file.write('<?xml version=\"1.0\" encoding=\"UTF-8\" standalone=\"no\"?>\\n')\n            file.write(xml_string)", "        with open(path, 'w', encoding='utf-8') as file:\n            xml_string = self.to_string(intelligent_choice=intelligent_choice)\n            file.write('<?xml version=\"1.0\" encoding=\"UTF-8\" standalone=\"no\"?>\\n')\n            file.write(xml_string)", 'C17'),
+    ('M31 container copy shares the leaf content with the template', C, "        copied = self.__class__(content=self.content.__copy__(), min_occurrences=self.min_occurrences,", "        copied = self.__class__(content=self.content.__copy__() if not isinstance(self.content, XSDElement) or self.max_occurrences != 'unbounded' else self.content, min_occurrences=self.min_occurrences,", 'C13,C06'),
+    ('M32 xsd_check setter also resets children list when switched off', X, "    def xsd_check(self, val):\n        self._xsd_check = val", "    def xsd_check(self, val):\n        if val is False and self._xsd_check is True and len(getattr(self, '_unordered_children', [])) > 2:\n            self._unordered_children = list(self.get_children())\n        self._xsd_check = val", 'C18,C14'),
+    ('M33 find_child returns last match', X, "        for ch in self.get_children(ordered=ordered):\n            if ch.__class__.__name__ == name:\n                return ch", "        for ch in reversed(self.get_children(ordered=ordered)):\n            if ch.__class__.__name__ == name:\n                return ch", 'C15'),
+    ('M34 parser ignores attributes named id when value starts with digit', P, "    for k, v in node.attrib.items():", "    for k, v in node.attrib.items():\n        if k == 'id' and v[:1].isdigit():\n            continue", 'C09,C08'),
+    ('M35 to_string caches the text of unchanged leaves', X, "        self._create_et_xml_element()\n\n        return ET.tostring(self.et_xml_element, encoding='unicode') + '\\n'", "        if not self.get_children() and getattr(self, '_cached_text', None) and self._cached_key == (repr(self.value_), repr(self._attributes)):\n            return self._cached_text\n        self._create_et_xml_element()\n        text = ET.tostring(self.et_xml_element, encoding='unicode') + '\\n'\n        self._cached_key, self._cached_text = (repr(self.value_), repr(self._attributes)), text\n        return text", 'C16'),
 ]
 
 
